@@ -18,9 +18,12 @@ import (
 	"fmt"
 	"os"
 	"sort"
+	"strings"
 
 	crypto "github.com/dappledger/AnnChain/gemmill/go-crypto"
 	wire "github.com/dappledger/AnnChain/gemmill/go-wire"
+	dbm "github.com/dappledger/AnnChain/gemmill/modules/go-db"
+	sm "github.com/dappledger/AnnChain/gemmill/state"
 	"github.com/dappledger/AnnChain/gemmill/types"
 
 	"verif/lib"
@@ -86,6 +89,27 @@ func reloadBinary(vs *types.ValidatorSet) (*types.ValidatorSet, error) {
 	var err error
 	out := wire.ReadBinary(&types.ValidatorSet{}, bytes.NewReader(bz), 0, &n, &err).(*types.ValidatorSet)
 	return out, err
+}
+
+// reloadState persists the set the way a node does (State.Save -> state DB -> LoadState).
+func reloadState(vs *types.ValidatorSet, asLast bool) (*types.ValidatorSet, error) {
+	db := dbm.NewMemDB()
+	other := mkSet([]int64{1})
+	st := &sm.State{GenesisDoc: &types.GenesisDoc{ChainID: "c16"}, ChainID: "c16", Validators: vs, LastValidators: other, AppHash: []byte{}}
+	if asLast {
+		st.Validators, st.LastValidators = other, vs
+	}
+	st2 := sm.MakeGenesisState(db, &types.GenesisDoc{ChainID: "c16", Validators: []types.GenesisValidator{{PubKey: pub(0), Amount: 1}}})
+	st2.Validators, st2.LastValidators = st.Validators, st.LastValidators
+	st2.Save()
+	ld := sm.LoadState(db)
+	if ld == nil {
+		return nil, fmt.Errorf("LoadState returned nil")
+	}
+	if asLast {
+		return ld.LastValidators, nil
+	}
+	return ld.Validators, nil
 }
 
 func reloadJSON(vs *types.ValidatorSet) (*types.ValidatorSet, error) {
@@ -164,16 +188,29 @@ func checkSet(powers []int64, j0max, kmax int64, label string) {
 					map[string]interface{}{"powers": powers, "start_increments": j, "k": k, "batched": sb, "repeated": sr})
 			}
 		}
-		for _, mode := range []string{"binary", "json", "copy"} {
+		for _, mode := range []string{"state", "state-last", "copy", "bare-binary", "bare-json"} {
 			var re *types.ValidatorSet
 			var err error
 			switch mode {
-			case "binary":
+			case "state":
+				re, err = reloadState(live, false)
+			case "state-last":
+				re, err = reloadState(live, true)
+			case "bare-binary":
 				re, err = reloadBinary(live)
-			case "json":
+			case "bare-json":
 				re, err = reloadJSON(live)
 			default:
 				re = live.Copy()
+			}
+			if strings.HasPrefix(mode, "bare-") {
+				// the bare go-wire encoding of a ValidatorSet carries no proposer; a node never reloads a set
+				// this way (State.Save adds the proposers): observed as a metric, not judged
+				run.Count("reload_"+mode, 1)
+				if err == nil && re.Size() > 0 && !bytes.Equal(re.Proposer().Address, live.Proposer().Address) {
+					run.Count("bare_wire_round_trip_names_other_proposer", 1)
+				}
+				continue
 			}
 			run.Count("reload_"+mode, 1)
 			if err != nil {
@@ -442,8 +479,8 @@ func enumPowers(n int, maxP int64, f func([]int64)) {
 
 func main() {
 	run = lib.NewRun("C16", "exploration")
-	run.SetRule("power vectors: exhaustive for n<=3 (quick) / n<=4 (thorough) with powers<=6, plus seeded random vectors (n<=10, powers to 1e9); for each, every start state after 0..j single increments, every batch size k<=2T (capped), binary/JSON/Copy round trips followed for 2T increments, all T-windows; plus seeded random Add/Update/Remove/Copy sequences on three replicas. Non-trivial: >=2 validators (distinct power vector) or a distinct operation sequence.")
-	run.Assume("proposer agreement is judged on Proposer().Address and all Accum values", "proportionality (b) is judged on sets built by NewValidatorSet (accums start at 0); windows after a membership change are observed separately")
+	run.SetRule("power vectors: exhaustive for n<=3 (quick) / n<=4 (thorough) with powers<=6, plus seeded random vectors (n<=10, powers to 1e9); for each, every start state after 0..j single increments, every batch size k<=2T (capped), State.Save/LoadState (as Validators and as LastValidators) and Copy() round trips followed for 2T increments (bare go-wire round trips of the set alone are observed as a metric), all T-windows; plus seeded random Add/Update/Remove/Copy sequences on three replicas. Non-trivial: >=2 validators (distinct power vector) or a distinct operation sequence.")
+	run.Assume("proposer agreement is judged on Proposer().Address and all Accum values", "persistence = State.Save -> state DB -> LoadState, the only way a node reloads a validator set", "proportionality (b) is judged on sets built by NewValidatorSet (accums start at 0); windows after a membership change are observed separately")
 	maxN := lib.Pick(3, 4)
 	for n := 1; n <= maxN; n++ {
 		enumPowers(n, 6, func(p []int64) {
@@ -519,13 +556,13 @@ func checkSetNoWindow(powers []int64, j0 int64) {
 					map[string]interface{}{"powers": powers, "start_increments": j, "k": k, "batched": sb, "repeated": sr})
 			}
 		}
-		re, err := reloadBinary(st)
-		run.Count("reload_binary", 1)
+		re, err := reloadState(st, false)
+		run.Count("reload_state", 1)
 		if err == nil {
 			sa, sb := snapshot(st), snapshot(re)
 			if sa.Proposer != sb.Proposer && sameAccums(sa.Accums, sb.Accums) {
 				run.Count("reload_proposer_differs", 1)
-				run.Violation("reloaded-set-names-other-proposer", fmt.Sprintf("binary round trip of %v after %d increments names %s, live %s", powers, j, sb.Proposer[:8], sa.Proposer[:8]), map[string]interface{}{"powers": powers, "start_increments": j})
+				run.Violation("reloaded-set-names-other-proposer", fmt.Sprintf("state save/load of %v after %d increments names %s, live %s", powers, j, sb.Proposer[:8], sa.Proposer[:8]), map[string]interface{}{"powers": powers, "start_increments": j})
 			}
 		}
 		st.IncrementAccum(1)
